@@ -268,7 +268,7 @@ def access(V, shape):
 
 def dma_access(V):
     """get_dma_memory_accesses / memory_range_set: the DMA's read set is [src, src+len) in src.region and its write set
-    is [dest, dest+dest.length) in dest.region."""
+    is [dest, dest+dest.length) in dest.region; source and destination length independent."""
     import ethosu.vela.register_command_stream_util as u
     from ethosu.vela.api import NpuDmaOperation, NpuAddressRange
     from ethosu.vela.range_set import AccessDirection as AD
@@ -277,12 +277,15 @@ def dma_access(V):
     ln = V.int("len", 1, 2**32)
     sr, dr = V.int("src_region", 0, 7), V.int("dst_region", 0, 7)
     sr_c, dr_c = sr.small_value(0, 7) if V.symbolic else sr, dr.small_value(0, 7) if V.symbolic else dr
-    op = NpuDmaOperation(NpuAddressRange(sr_c, sa, ln), NpuAddressRange(dr_c, da, ln))
+    # the two address ranges of the public API carry their own lengths and nothing forces them to agree; DMA0_LEN is programmed from the source
+    # length, so the read set must be the whole source range whatever the destination says
+    dl = V.int("dest_len", 1, 2**32)
+    op = NpuDmaOperation(NpuAddressRange(sr_c, sa, ln), NpuAddressRange(dr_c, da, dl))
     acc = u.get_dma_memory_accesses(op)
     rd, wr = acc.accesses[AD.Read].regions, acc.accesses[AD.Write].regions
     claims = [("read regions", set(rd.keys()) == {sr_c}), ("write regions", set(wr.keys()) == {dr_c})]
     claims.append(("read range", len(rd[sr_c].ranges) == 1 and z3.And(L(rd[sr_c].ranges[0][0]) == L(sa), L(rd[sr_c].ranges[0][1]) == L(sa) + L(ln))))
-    claims.append(("write range", len(wr[dr_c].ranges) == 1 and z3.And(L(wr[dr_c].ranges[0][0]) == L(da), L(wr[dr_c].ranges[0][1]) == L(da) + L(ln))))
+    claims.append(("write range", len(wr[dr_c].ranges) == 1 and z3.And(L(wr[dr_c].ranges[0][0]) == L(da), L(wr[dr_c].ranges[0][1]) == L(da) + L(dl))))
     return claims
 
 
